@@ -81,6 +81,27 @@ def run(ck, F):
             B = I.collapsed_body(F.lib, fn, stop=stop)
             if B is not None and B.calls_to(PARSE):
                 heads.append((fn, B, cs))
+    primary_heads = {h[0] for h in heads}
+    # cycles nested inside a recursion (a cycle that does not pass through the head found above) are recursions of their own: with the
+    # edges into the known heads removed, what is still cyclic is analysed the same way, until nothing cyclic is left
+    known = {h[0] for h in heads}
+    for _ in range(4):
+        g2 = {k: {c for c in v if c not in known} for k, v in g.items() if k not in known}
+        more = []
+        for comp in sccs(g2, {x for x in local if x not in known}):
+            cs = set(comp)
+            if len(comp) == 1 and comp[0] not in g2.get(comp[0], ()):
+                continue
+            cands = [fn for fn in sorted(comp) if "{closure" not in fn and "yaserde_tests" not in fn
+                     and any(fn in g.get(c, ()) for c in local if c not in cs)]
+            for fn in cands[:1]:
+                B = I.collapsed_body(F.lib, fn, stop=lambda p, known=frozenset(known): stop(p) or p in known)
+                if B is not None and B.calls_to(PARSE):
+                    more.append((fn, B, cs))
+        if not more:
+            break
+        heads += more
+        known |= {h[0] for h in more}
     _cleared_only_at_entry(ck, F, g, heads)
     parsers = [b for b in scans.bodies(F.lib) if "yaserde_tests" not in b["path"] and M.Body(b).calls_to(PARSE)]
     ck.floor("R1", "functions parsing a document", len(parsers), 1)
@@ -93,13 +114,19 @@ def run(ck, F):
         ck.count("R1:blocks of the collapsed recursion", len(B.reach))
         is_head = lambda t: (M.Body.callee(t) or "") == fn or (M.Body.callee_decl(t) or "") == fn
         rec_calls = list(I.calls_through_closures(F.lib, B, is_head, head=fn))
+        # a callee that was not taken in (it lies on a nested cycle) and can reach the head again: its call is a re-entry as well
+        for cbb_, ct_ in B.calls():
+            cal_ = M.Body.callee(ct_) or M.Body.callee_decl(ct_) or ""
+            if cal_ != fn and cal_ in local and fn in scans.reachable(g, [cal_]) and not any(cbb_ == x[0] and x[2] is None for x in rec_calls):
+                rec_calls.append((cbb_, ct_, None))
         for parse_bb, pt in B.calls_to(PARSE):
             # the file whose text is parsed
-            xml_roots = {(o.kind, getattr(o, "local", None)) for o in M.trace(B, pt["args"][0]) if o.kind == "arg"}
+            rootkey = lambda o: ("arg", o.local) if o.kind == "arg" else ("call", o.bb) if o.kind == "call" else None
+            xml_roots = {rootkey(o) for o in M.trace(B, pt["args"][0]) if rootkey(o)}
             loads = []
             for bb, t in B.calls_to(C12.ATOMIC_LOAD) + _test_and_set(B):
                 os_ = M.trace(B, t["args"][0])
-                if os_ and all("processed" in o.fields() for o in os_) and {(o.kind, getattr(o, "local", None)) for o in os_} & xml_roots:
+                if os_ and all("processed" in o.fields() for o in os_) and {rootkey(o) for o in os_} & xml_roots:
                     loads.append(bb)
             guard_ok = any(B.dominates(bb, parse_bb) for bb in loads)
             if not guard_ok:
@@ -116,7 +143,7 @@ def run(ck, F):
             os_ = M.trace(B, t["args"][0])
             vi = 2 if (M.Body.callee_decl(t) or "").endswith(("compare_exchange", "compare_exchange_weak")) else 1
             vals = M.trace(B, t["args"][vi], M.IDENTITY_CALLS)
-            if os_ and all(o.kind == "arg" and "processed" in o.fields() for o in os_) and vals and all(
+            if os_ and all(o.kind in ("arg", "call") and "processed" in o.fields() for o in os_) and vals and all(
                     v.kind == "const" and "true" in str(v.const.get("text")) for v in vals):
                 stores.append(bb)
         if not rec_calls:
@@ -133,6 +160,8 @@ def run(ck, F):
                 ck.violation("R1", f"mark-before-descent:{_site_key(site)}", site,
                              "the re-entry of the import recursion (following an import) is not dominated by the store `processed <- true`: "
                              "a self- or mutual import re-enters this file without bound", fn=fn)
+        if fn not in primary_heads:
+            continue    # a nested cycle reads into the document it was handed: nothing is returned and merged (R2 is about the outer reader)
         # R2: the document returned by the recursion is merged exactly once
         merges = B.calls_to("RustDocument::extend")
         produced = {}
